@@ -29,7 +29,7 @@ ASSUMPTIONS = [
 ]
 HASHSEEDS = ["0", "1", "2", "random", "12345", "3", "random", "4294967295"]
 NSHARDS = {"quick": 8, "thorough": 16}
-N_CFG = {"quick": 36, "thorough": 400}
+N_CFG = {"quick": 36, "thorough": 900}
 N_GEN = {"quick": 40, "thorough": 600}
 REQUIRE = {"paired_runs_same_process": 200, "paired_with_failures": 50, "paired_with_suspensions": 20,
            "paired_with_pool_level_ties": 10, "second_run_positioned_at_id_rollover": 15, "paired_with_simultaneous_suspension_ends": 5,
